@@ -299,6 +299,11 @@ impl State {
     pub fn handle_error(&mut self, err: &proto::Error) {
         match self.inner {
             Closed(..) => {}
+            // Preserve the received EOS while retaining the error for the send half.
+            HalfClosedRemote(..) => {
+                tracing::trace!("handle_error; err={:?}", err);
+                self.inner = Closed(Cause::ErrorAfterEndStream(err.clone()));
+            }
             _ => {
                 tracing::trace!("handle_error; err={:?}", err);
                 self.inner = Closed(Cause::Error(err.clone()));
@@ -307,17 +312,22 @@ impl State {
     }
 
     pub fn recv_eof(&mut self) {
+        let err: proto::Error = io::Error::new(
+            io::ErrorKind::BrokenPipe,
+            "stream closed because of a broken pipe",
+        )
+        .into();
+
         match self.inner {
             Closed(..) => {}
+            // Preserve the received EOS while retaining the error for the send half.
+            HalfClosedRemote(..) => {
+                tracing::trace!("recv_eof; state={:?}", self.inner);
+                self.inner = Closed(Cause::ErrorAfterEndStream(err));
+            }
             ref state => {
                 tracing::trace!("recv_eof; state={:?}", state);
-                self.inner = Closed(Cause::Error(
-                    io::Error::new(
-                        io::ErrorKind::BrokenPipe,
-                        "stream closed because of a broken pipe",
-                    )
-                    .into(),
-                ));
+                self.inner = Closed(Cause::Error(err));
             }
         }
     }
